@@ -33,11 +33,12 @@ def run(ctx):
         model_ok = ok
         if not ok:
             model_ok, _ = ctx.coq_build(["lib/Upload.vo"])
-        paths_check(ctx, impl, names, model_ok)
-        upload_check(ctx, impl, names, model_ok)
-        registry_check(ctx, impl, model_ok)
-        gatherer_check(ctx, impl, names, model_ok)
-        publisher_check(ctx, impl, names, model_ok)
+        import time
+        for fn, args in ((paths_check, (names,)), (upload_check, (names,)), (registry_check, ()), (gatherer_check, (names,)),
+                         (publisher_check, (names,))):
+            t0 = time.time()
+            fn(ctx, impl, *args, model_ok)
+            ctx.extra["t_" + fn.__name__] = round(time.time() - t0, 1)
     impl.wipe()
     if not ok and len(ctx.failures) == before:
         ctx.fail("proof-broken", "theorem closure props/C19.vo no longer builds against the regenerated gen/UploadGen.v: "
